@@ -1,6 +1,7 @@
 package sqlparser
 
 import (
+	"bytes"
 	"errors"
 	"fmt"
 	"io"
@@ -921,6 +922,12 @@ func (node *DeallocatePrepare) walkSubtree(visit Visit) error {
 // Format formats the node.
 func (node Comments) Format(buf *TrackedBuffer) {
 	for _, c := range node {
+		// a line comment that ended with its enclosing /*! ... */ has no line feed of its own: printed in line
+		// it would swallow the rest of the statement
+		if (bytes.HasPrefix(c, []byte("#")) || bytes.HasPrefix(c, []byte("--"))) && !bytes.HasSuffix(c, []byte("\n")) {
+			buf.Myprintf("%s\n ", c)
+			continue
+		}
 		buf.Myprintf("%s ", c)
 	}
 }
